@@ -305,46 +305,27 @@ Proof. split; [exact ex_carries|split; [exact ex_sense|exact example_base_vector
 
 (* ---------- develop_lattice: ranges against base vectors, element translation ---------- *)
 
-(* the test of the FILL ranges in develop_lattice, as written: when the number
-   of base vectors differs from the number of ranges it only compares it with
-   the number of non-trivial ranges (the loop over the "missing" bounds never
-   runs, its count is negative) *)
+(* develop_lattice accepts the FILL ranges exactly when there is one range per
+   base vector and every range beyond them is lo = hi (a six-plane prism has two
+   base vectors: FILL=-1:1 0:0 0:0 is accepted, FILL=-1:1 0:0 -1:1 is not);
+   this is the code after /repo commit 9b5a8f0, which repaired the finding
+   six_planes_trivial_range of the previous round *)
 Theorem C07_domain_check_spec : forall (nvec : nat) (bounds : list (Z * Z)),
-  (nvec <= List.length bounds)%nat ->
-  domain_check nvec bounds =
-  if Nat.eqb nvec (List.length bounds) || Nat.eqb nvec (bounds_dims bounds) then Ok tt else Err ELattice.
+  domain_check nvec bounds = Ok tt <->
+  (nvec <= List.length bounds)%nat /\ Forall (fun r => fst r = snd r) (skipn nvec bounds).
 Proof. exact domain_check_spec. Qed.
 Print Assumptions C07_domain_check_spec.
 
-(* guarded statement: ranges of a lattice whose leading ranges are all
-   non-trivial and whose ranges without base vector are lo = hi are accepted *)
-Theorem C07_domain_check_guarded : forall (nvec : nat) (bounds : list (Z * Z)),
-  (nvec <= List.length bounds)%nat ->
-  forallb nontrivial (firstn nvec bounds) = true ->
-  forallb (fun r => negb (nontrivial r)) (skipn nvec bounds) = true ->
-  domain_check nvec bounds = Ok tt.
-Proof. exact domain_check_guarded. Qed.
-Print Assumptions C07_domain_check_guarded.
+Theorem C07_domain_check_error : forall (nvec : nat) (bounds : list (Z * Z)),
+  domain_check nvec bounds = Ok tt \/ domain_check nvec bounds = Err ELattice.
+Proof. exact domain_check_error. Qed.
+Print Assumptions C07_domain_check_error.
 
-(* the full statement (every FILL whose range without base vector is lo = hi is
-   accepted) is false of the code: six planes, FILL=-1:1 0:0 0:0 — the finding
-   six_planes_trivial_range *)
-Theorem C07_six_planes_trivial_range_refuted :
-  exists bounds : list (Z * Z),
-    List.length bounds = 3%nat /\
-    forallb (fun r => negb (nontrivial r)) (skipn 2 bounds) = true /\
-    domain_check 2 bounds = Err ELattice.
-Proof. exact six_planes_trivial_range_refuted. Qed.
-Print Assumptions C07_six_planes_trivial_range_refuted.
-
-(* the converse defect of the same test: a non-trivial range in a direction
-   without base vector passes as soon as the count fits (six planes,
-   FILL=-1:1 0:0 -1:1); by C07_lattice_vector the elements (i, 0, k), k = -1, 0, 1
-   are then superposed *)
-Theorem C07_axial_range_without_vector_accepted :
-  domain_check 2 [(-1, 1); (0, 0); (-1, 1)]%Z = Ok tt.
-Proof. exact axial_range_without_vector_accepted. Qed.
-Print Assumptions C07_axial_range_without_vector_accepted.
+Example C07_domain_check_examples :
+  domain_check 2 [(-1, 1); (0, 0); (0, 0)]%Z = Ok tt /\
+  domain_check 2 [(-1, 1); (0, 0); (-1, 1)]%Z = Err ELattice /\
+  domain_check 3 [(0, 0); (2, 2); (0, 1)]%Z = Ok tt.
+Proof. repeat split. Qed.
 
 (* element (i, j, k) is translated by i a1 + j a2 + k a3; with the two base
    vectors of a six-plane prism the third index does not move the element *)
